@@ -3,7 +3,15 @@
 // Export shim for the C10 correspondence harness (injected with `go build -overlay`, never part of /repo).
 package syncqueue
 
+import "k8s.io/client-go/util/workqueue"
+
 // VerifC10WrapHandler wraps the queue's sync handler (to be called before Run).
 func (sq *SyncQueue) VerifC10WrapHandler(wrap func(SyncHandler) SyncHandler) {
 	sq.syncHandler = wrap(sq.syncHandler)
+}
+
+// VerifC10WrapQueue puts a decorator around the queue's work queue (to be called before Run): the harness records
+// which objects are scheduled again (Add / AddAfter / AddRateLimited) before an item is marked Done.
+func (sq *SyncQueue) VerifC10WrapQueue(wrap func(workqueue.RateLimitingInterface) workqueue.RateLimitingInterface) {
+	sq.queue = wrap(sq.queue)
 }
